@@ -20,6 +20,7 @@ EXPLANATION = (
     ' (Y4) functions that mutate a list argument are only called with a fresh copy; (Y5) the scan over recognised groups stops early only under a test that the rewrite changed the SMILES; (Y6) no textual rewrite (re.sub / str.replace, directly or through a callee) is applied to the SMILES inside the standardiser.'
     " (Y7) the rewrite-until-stable loop is not capped by a bound independent of the input; (Y8) a hand-made hydrogen increase is not conditional on the receiver's current hydrogen count unless the other outcome refuses the rewrite; (Y9) every bond-order rewrite adjusts explicit hydrogen counts (atoms in brackets have no implicit hydrogens); (Y10) an absolute positive hydrogen count is set only after the atom's hydrogens were tested."
     ' (Y11) a failed sanitisation is noticed; (Y12) no result table is evicted between storing and reading an entry in one call; (Y13) the input is canonicalised before the first functional-group query - Y4/Y5 are only evaluated when it is not.'
+    ' (Y14) the oxygen that gives up a hydrogen is tested to carry one; (Y15) a sequence derived from the group indices is not unpacked into a fixed number of names without a length test; Y11 was withdrawn (no failing input after the donor test).'
 )
 ASSUMPTIONS = ["atom indices reported by the functional-group query refer to the SMILES that was queried"]
 
